@@ -36,7 +36,7 @@ def gen_monitored(seed, tier, opts, always=(), never=(), fault_kinds=(), defer_c
 def run_monitored(sc, prop, extra_check=None) -> Result:
     res = Result()
     res.signature = history.scenario_signature(sc) + ":" + str(sorted(sc.get("faults", {}).items()))[:200]
-    mons = []
+    mons = [M.StaleChildMonitor()]
     own = []
     for pid, classes in ALL.items():
         for cls in classes:
@@ -44,7 +44,6 @@ def run_monitored(sc, prop, extra_check=None) -> Result:
             mons.append(m)
             if pid == prop:
                 own.append(m)
-    mons.append(M.StaleChildMonitor())
     inj = None
     if sc.get("faults"):
         inj = faults.FaultInjector({int(k): v for k, v in sc["faults"].items()})
